@@ -1138,6 +1138,40 @@ def gen_rateenc(repo):
     out.append('end Flac.Gen')
     return '\n'.join(out) + '\n'
 
+def gen_wasted(repo):
+    """encode.rs `encode_subframe`: how the number of wasted bits is determined and what happens for each outcome"""
+    n = ' '.join(strip_comments(open(os.path.join(repo, 'src/encode.rs')).read()).split())
+    out = ['/- GENERATED by tools/translate.py from src/encode.rs (encode_subframe, wasted bits) — do not edit -/', 'namespace Flac.Gen', '']
+    m = re.search(r'const WASTED_MAX: NonZero<u32> = NonZero::new\((\d+)\)\.unwrap\(\);', n)
+    if not m:
+        raise ExtractError('encode_subframe: WASTED_MAX not found')
+    wmax = int(m.group(1))
+    m = re.search(r'match channel\.iter\(\)\.try_fold\(WASTED_MAX, \|acc, sample\| \{ NonZero::new\(sample\.trailing_zeros\(\)\)\.map\(\|sample\| sample\.(min|max)\(acc\)\) \}\) \{ '
+                  r'None => \(channel, bits_per_sample, 0\), Some\(WASTED_MAX\) => \{ constant_output\.clear\(\); encode_constant_subframe\(constant_output, channel\[0\], bits_per_sample, 0\)\?; return Ok\(constant_output\); \} '
+                  r'Some\(wasted_bps\) => \{ let wasted_bps = wasted_bps\.get\(\); wasted\.clear\(\); wasted\.extend\(channel\.iter\(\)\.map\(\|sample\| sample >> wasted_bps\)\); '
+                  r'\( wasted\.as_slice\(\), bits_per_sample\.checked_sub\(wasted_bps\)\.unwrap\(\), wasted_bps, \) \} \};', n)
+    if not m:
+        raise ExtractError('encode_subframe: the wasted-bits determination (try_fold over trailing_zeros with its three outcomes) changed shape')
+    out.append(f'/-- `WASTED_MAX`: the start value of the fold; also `0i32.trailing_zeros()` -/\ndef encWastedMax : Nat := {wmax}\n')
+    out.append('/-- one step of `channel.iter().try_fold(WASTED_MAX, |acc, sample| NonZero::new(sample.trailing_zeros()).map(|s| s.' + m.group(1) + '(acc)))`:\n'
+               '    `tz` = trailing zeros of the sample; `none` = the fold stops (no wasted bits) -/\n'
+               f'def encWastedStep (acc tz : Nat) : Option Nat := if tz = 0 then none else some (Nat.{m.group(1)} tz acc)\n')
+    # the `all_0` flag of every `CorrelatedChannel` literal in `correlate_channels` belongs to the sample vector of the same literal
+    cc = re.search(r'fn correlate_channels<.*?fn encode_subframe<', n, re.S)
+    if not cc:
+        raise ExtractError('correlate_channels: not found')
+    lits = re.findall(r'CorrelatedChannel \{ samples: (\w+), (bits_per_sample(?:: [^,]+?)?), all_0: ([^,]+?), \}', cc.group(0))
+    if len(lits) < 10:
+        raise ExtractError(f'correlate_channels: only {len(lits)} CorrelatedChannel literals found')
+    own = {'left': 'left_abs_sum == 0', 'right': 'right_abs_sum == 0', 'average_samples': 'mid_abs_sum == 0', 'difference_samples': 'side_abs_sum == 0'}
+    bad = [(sv, a) for sv, _, a in lits if not (a == 'false' or own.get(sv) == a)]
+    out.append('/-- in `correlate_channels` every `CorrelatedChannel { samples: S, .., all_0: A }` has `A` = `false` or the absolute sum of that same `S` compared with 0\n'
+               '    (`left`/`left_abs_sum`, `right`/`right_abs_sum`, `average_samples`/`mid_abs_sum`, `difference_samples`/`side_abs_sum`) -/\n'
+               f'def encAll0FlagsOwnChannel : Bool := {"true" if not bad else "false"}\n')
+    out.append(f'/-- number of `CorrelatedChannel` literals inspected -/\ndef encCorrelatedChannelLiterals : Nat := {len(lits)}\n')
+    out.append('end Flac.Gen')
+    return '\n'.join(out) + '\n'
+
 def gen_par(repo):
     """facts about the parallel feature of encode.rs (C18)"""
     n = ' '.join(strip_comments(open(os.path.join(repo, 'src/encode.rs')).read()).split())
@@ -1396,6 +1430,7 @@ GENERATORS = [
     ('CrcIo.lean', 'which bytes CrcWriter::write / CrcReader::read checksum', gen_crcio),
     ('ByteOrder.lean', 'byteorder.rs 24-bit conversions and bytes_to_le', gen_byteorder),
     ('RateEnc.lean', 'SampleRate::try_from and the stream writer rate rule', gen_rateenc),
+    ('Wasted.lean', 'encode_subframe wasted-bits determination', gen_wasted),
     ('ShapesHdr.lean', 'frame header shapes', gen_shapes_hdr),
     ('ShapesRd.lean', 'reader shapes', gen_shapes_rd),
     ('ShapesEnc.lean', 'encoder-side shapes', gen_shapes_enc),
